@@ -48,10 +48,10 @@ def _short(q):
 
 
 def runtime_statics(prog, chk, rid):
-    """A function-local static (or namespace-scope variable) whose initialiser depends on a
-    parameter, on `this` or on a call is computed once per process and then shared by every library
-    opened in it - state outside the database even when it is declared const.  Accepted: statics
-    initialised from literals / constant expressions only."""
+    """A function-local static whose initialiser depends on a parameter or on `this` is computed on
+    the first call and then shared by every library opened in the process - state outside the
+    database even when it is declared const.  Accepted: statics whose initialiser mentions neither
+    (literals, constant expressions, calls of functions of constants)."""
     n = 0
     for f in prog.functions.values():
         if f.body is None or f.is_pattern or not prog.in_repo(f.file):
@@ -69,14 +69,10 @@ def runtime_statics(prog, chk, rid):
                     dyn = 'this'
                 elif k == 'DeclRefExpr' and (x.get('referencedDecl') or {}).get('id') in pids:
                     dyn = 'parameter %s' % (x.get('referencedDecl') or {}).get('name')
-                elif k in ('CXXMemberCallExpr',) or (k == 'CallExpr' and not v.get('constexpr')):
-                    callee = strip(children(x)[0]) if children(x) else {}
-                    nm = callee.get('name') or (callee.get('referencedDecl') or {}).get('name')
-                    dyn = dyn or ('call of %s' % nm)
-                if dyn and dyn != 'call of None':
+                if dyn:
                     break
             short = '::'.join((f.qualname or '').split('::')[-2:])
-            inst = 'static %s in %s is initialised from constants only' % (v.get('name'), short)
+            inst = 'static %s in %s is initialised without reference to a parameter or this' % (v.get('name'), short)
             if dyn and not v.get('constexpr'):
                 chk.violation(rid, '%s|static %s initialised at run time' % (short, v.get('name')), locstr(v),
                               'static %s %s in %s is initialised from %s: the value is computed on the first call '
